@@ -246,6 +246,10 @@ func c03Run(w *W) {
 				}
 				replyN++
 				tag := fmt.Sprintf("reply%d", replyN)
+				if !short && w.Choose(simrt.SProg, 8) == 0 {
+					tag = "" // a reply with an empty body: exactly the 4 id bytes on the wire
+					w.Probe("empty-reply")
+				}
 				var wire []byte
 				if short {
 					wire = []byte("abc")[:w.Choose(simrt.SProg, 4)]
@@ -409,5 +413,5 @@ func c03Run(w *W) {
 }
 
 func init() {
-	register(&Scenario{Name: "req-replies", Prop: "C03", Horizon: 30 * time.Minute, Run: c03Run})
+	register(&Scenario{Name: "req-replies", Prop: "C03", Horizon: 30 * time.Minute, Weight: 40, Run: c03Run})
 }
